@@ -270,6 +270,7 @@ def run(tier):
                 want_id = hexs(case['header_id'].ljust(65).encode())
                 if f'1:20:-:0a{want_seq}' not in rep or f'1:20:-:41{want_id}' not in rep:
                     chk.fail('file-header:content', case, f'decoded header {rep[:200]}')
+    eflr.late_header_stream(chk, model, bres, rng('C04', 'file-header-late'), 60 if tier == 'quick' else 600)
     # a write refused in the middle of a set, the object corrected, the same DLISFile written again
     from harness import wholefile as wf
     wf.refused_then_corrected('C04', tier, model, bres, chk, 30, 300)
